@@ -217,7 +217,8 @@ class PoolSelection:
     def value(self, loc, operand, k):
         P = self.P
         if self.form == "branch":
-            return P.val_operand_in(self.swap, loc, operand, self.regions[k])
+            # an index chosen in the branches and used after they merged (`pools[offer_idx]`, `1 - offer_idx`) folds to a constant
+            return fold_indices(resolve(P.val_operand_in(self.swap, loc, operand, self.regions[k])))
         v = P.val_operand(self.swap, loc, operand, self.swap.body)
         if self.form == "helper":
             mapping = {("param", self.h.path, i): a for i, a in enumerate(self.h_call[4])}
